@@ -85,6 +85,7 @@ class Ledger(qsim.Oracle):
         self.cur = {}            # num -> current gen
         self.tokens = {}         # token -> Msg
         self.recs_seen = 0
+        self.rec_bases = set()
         self.lifetime = lifetime
         self.term_sent = False
         self.generation = 0
@@ -137,8 +138,14 @@ class Ledger(qsim.Oracle):
 
     def scan_recs(self, sim):
         recs = sim.read_recs()
-        for r in recs[self.recs_seen:]:
+        for r in recs:
+            if r["base"] in self.rec_bases:
+                continue
+            self.rec_bases.add(r["base"])
             sender, recips = parse_envelope(r["env"])
+            # an injection cut short by a crash of the daemon leaves a record with an incomplete
+            # envelope: qmail-queue refuses it, nothing was queued
+            r["complete"] = r["env"].endswith(b"\0\0") and r["env"][:1] == b"F"
             r["sender"], r["recips"] = sender, recips
             r["notice"] = bouncemodel.parse_notice(r["msg"])
             # the notice carries a copy of the failed message: its parent is the (largest) known
